@@ -28,3 +28,33 @@ def commuteSoundAt (self cur : UOp) (tcols : Cols) (l : List Row) : Prop :=
        (∀ x, x ∈ sc → x ∈ ccols))
 
 end DafRel
+
+namespace DafRel
+
+/-- The list function of a partial join: the rows `F` of the fixed relation joined, on the resolved
+common columns and the predicate, with the rows of the target (on the side `fixed_is_lhs` says). -/
+def PJoin.semRows (p : PJoin) (F l : List Row) : List Row :=
+  if p.fixedIsLhs then joinRows p.join.minCols p.join.pred F l
+  else joinRows p.join.minCols p.join.pred l F
+
+/-- What the report of `PartialJoin.commute` promises for a target with columns `tcols` and rows `l`
+(`cur` is the existing operation applied to that target, `F` are the rows of the fixed relation):
+a refusal hands back the existing operation; a move is complete, moves the join itself, the join and the
+reported second operation are well-formed where they would be applied, the columns are those of joining at
+the root, and the rows are those of joining at the root - as a multiset always (a join defines no row
+order: with the fixed relation on the left the nested-loop order of `joinRows` groups by the fixed row),
+and as a list, order included, whenever the existing operation is not a sort. -/
+def pjoinCommuteSoundAt (p : PJoin) (cur : UOp) (tcols : Cols) (F l : List Row) : Prop :=
+  let ccols := cur.appliedColumns tcols
+  let c := p.commute cur tcols ccols
+  match c.1 with
+  | none => c.2.1 = cur
+  | some f =>
+    let jc := f.appliedColumns tcols
+    let sc := c.2.1.appliedColumns jc
+    f = p ∧ c.2.2 = true ∧ p.columnsRequired.subset tcols = true ∧ c.2.1.wfOn jc = true ∧
+    (∀ x, x ∈ sc ↔ x ∈ p.appliedColumns ccols) ∧
+    List.Perm (c.2.1.sem sc (p.semRows F l)) (p.semRows F (cur.sem ccols l)) ∧
+    ((∀ ts, cur ≠ .sort ts) → c.2.1.sem sc (p.semRows F l) = p.semRows F (cur.sem ccols l))
+
+end DafRel
